@@ -22,9 +22,29 @@ PI = math.pi
 TOL = 1e-9
 
 
-def lie():
+class _Layouts:
+    """evo.core.lie_algebra with every 2-D array argument handed over in a random memory layout
+    (C / Fortran order, transposed view, strided window, read-only) - same values"""
+
+    def __init__(self, mod, case):
+        self._mod = mod
+        self._rng = np.random.default_rng(list(case["rs"]) + [55]) if case is not None and "rs" in case else None
+
+    def __getattr__(self, name):
+        f = getattr(self._mod, name)
+        if not callable(f) or self._rng is None:
+            return f
+
+        def call(*a, **kw):
+            a = [gen.relayout(self._rng, x) if isinstance(x, np.ndarray) and x.ndim == 2 and x.dtype == np.float64 else x
+                 for x in a]
+            return f(*a, **kw)
+        return call
+
+
+def lie(case=None):
     from evo.core import lie_algebra
-    return lie_algebra
+    return _Layouts(lie_algebra, case)
 
 
 def _angle_class(th):
@@ -42,7 +62,7 @@ def _angle_class(th):
 
 
 def k_explog(run, case):
-    L = lie()
+    L = lie(case)
     rng = run.rng(case)
     cls = case.get("cls") or gen.ROT_CLASSES[rng.integers(len(gen.ROT_CLASSES))]
     if "theta" in case:
@@ -103,7 +123,7 @@ def k_explog(run, case):
 
 
 def k_hatvee(run, case):
-    L = lie()
+    L = lie(case)
     rng = run.rng(case)
     v = rng.normal(size=3) * 10.0**rng.uniform(-12, 9)
     w = rng.normal(size=3)
@@ -127,7 +147,7 @@ def _mag_class(t):
 
 
 def k_se3(run, case):
-    L = lie()
+    L = lie(case)
     rng = run.rng(case)
     cls = gen.ROT_CLASSES[rng.integers(len(gen.ROT_CLASSES))]
     Ra, Rb = gen.rot_of_class(rng, cls), gen.rand_rot(rng)
@@ -166,7 +186,7 @@ def k_se3(run, case):
 
 
 def k_sim3(run, case):
-    L = lie()
+    L = lie(case)
     rng = run.rng(case)
     R = gen.rot_of_class(rng, gen.ROT_CLASSES[rng.integers(len(gen.ROT_CLASSES))])
     t = rng.normal(size=3) * 10.0**rng.uniform(-6, 9)
@@ -209,7 +229,7 @@ def k_sim3(run, case):
 
 
 def k_metric(run, case):
-    L = lie()
+    L = lie(case)
     rng = run.rng(case)
 
     def d(A, B):
@@ -257,7 +277,7 @@ def _givens_product(rng):
 
 
 def k_member(run, case):
-    L = lie()
+    L = lie(case)
     rng = run.rng(case)
     R = _givens_product(rng) if rng.random() < .7 else \
         gen.rot_of_class(rng, gen.ROT_CLASSES[rng.integers(len(gen.ROT_CLASSES))])
